@@ -333,8 +333,15 @@ fn roundtrip_and_check(text: &str, cfg: &EvalCfg, b: &Building) -> Outcome {
         Err(p) => return Outcome::Panic(p.site, p.message),
     };
     // read back
+    let exact_outputs = c.data.iter().filter(|e| e.is_out()).all(|e| e.values().iter().all(|v| same_f32(printed2(*v), *v)));
     let c2 = match sut::parse_components(&ctext) {
         Ok(Ok(c2)) => c2,
+        // the outputs that weight an AUX split do not print exactly (0.005 kWh is written 0.00): rounding them is
+        // not a perturbation "up to the printed precision" of the split (same rule as for the result comparison) —
+        // a system whose whole output rounds to zero becomes one whose auxiliaries cannot be attributed
+        Ok(Err(e)) if !exact_outputs && c.data.iter().any(|x| x.is_aux()) && e.kind == sut::ErrKind::WrongInput => {
+            return Outcome::NoResult("reread:aux-weights-rounded-away".into())
+        }
         Ok(Err(e)) => {
             return Outcome::Bad(Violation::new("roundtrip_unreadable", "components", format!("the written components cannot be read back: {} — written text: {:?}", e.msg, truncate(&ctext, 600))))
         }
@@ -345,7 +352,6 @@ fn roundtrip_and_check(text: &str, cfg: &EvalCfg, b: &Building) -> Outcome {
         Ok(Err(e)) => return Outcome::Bad(Violation::new("roundtrip_unreadable", "factors", format!("the written factors cannot be read back: {} — written text: {:?}", e, truncate(&ftext, 600)))),
         Err(p) => return Outcome::Panic(p.site, p.message),
     };
-    let exact_outputs = c.data.iter().filter(|e| e.is_out()).all(|e| e.values().iter().all(|v| same_f32(printed2(*v), *v)));
     if let Some(v) = check_components_roundtrip(&c, &c2, exact_outputs) {
         return Outcome::Bad(v);
     }
